@@ -7,6 +7,7 @@ import CedarVerif.Lemmas.PartialSubst5
 import CedarVerif.Lemmas.PartialStore5
 import CedarVerif.Lemmas.PartialStore6
 import CedarVerif.Lemmas.PartialStore7
+import CedarVerif.Lemmas.PartialStore8
 import CedarVerif.Cedar.ExprBeq
 /-
 C13 — partial evaluation with unknowns is sound.  Property theorems only (helpers: Lemmas/Partial*.lean).
@@ -969,5 +970,225 @@ example :
     refine .record (by decide) ?_
     intro kv hkv; simp only [List.mem_cons, List.not_mem_nil, or_false] at hkv; subst hkv; exact .unknown _ _ hl
   exact ⟨rfl, context_substitute_gives_completes σ [] hf rfl⟩
+
+/-! ### one round on the store the caller still holds; `concretize_request` as the only request hypothesis -/
+
+/-- **reauthorize_eq_fresh_on** — `reauthorize_eq_fresh` for an arbitrary second-pass store `pes2` (the `entities` argument
+of `PartialResponse::reauthorize`): given policy-level agreement of the residual policies re-evaluated on `pes2`
+(`PolicyAgreesOn pes2`), `reauthorize σ pes2` yields decision and determining policies of the fresh concrete authorization
+on `(req', es')`.  `reauthorize_eq_fresh` is the instance `pes2 = .ofConcrete es'`. -/
+theorem reauthorize_eq_fresh_on (pes2 : PEntities) (σ : Mapper) (preq : PRequest) (pes : PEntities) (ps : List Policy)
+    (req' : Request) (es' : Entities)
+    (hreq : (isAuthorizedCore [] preq pes ps).concretizeRequest σ = .ok (.ofConcrete req'))
+    (hslot : (isAuthorizedCore [] preq pes ps).residualPoliciesPanic = false)
+    (hsound : ∀ p, p ∈ ps → PolicyAgreesOn pes2 σ preq pes req' es' p) :
+    ∃ pr2, (isAuthorizedCore [] preq pes ps).reauthorize σ pes2 = .ok pr2 ∧
+      pr2.decision = some (isAuthorized req' es' ps).decision ∧
+      pr2.concretize.decision = (isAuthorized req' es' ps).decision ∧
+      (∀ id, id ∈ pr2.concretize.reasons ↔ id ∈ (isAuthorized req' es' ps).reasons) :=
+  reauthorize_core_on pes2 σ preq pes ps req' es' hreq hslot hsound
+
+/-- **partial_authorization_sound_direct** — `partial_authorization_sound` with the second pass on the **unsubstituted**
+store: when every residual attribute value of the (concrete-mode) partial store `pes` is a direct `Unknown` and no tag value
+is residual (`PS.DirectUnk pes`), `reauthorize σ pes` — re-authorizing against the very store the caller still holds, the way
+`PartialResponse::reauthorize(mapping, auth, entities)` is typically called — succeeds in ONE round and gives the decision
+and the determining policies of authorizing the fully concrete request on the completed store `es` from scratch.  No
+canonicity hypothesis on `es` beyond `StoreCompletes` is needed (the second pass never reads `es`).  Neither "direct" nor
+"no residual tag" can be dropped (`second_round_needed`, `direct_unknown_one_round`).  `hfuel2` is about the pass that is
+actually run (on `pes`). -/
+theorem partial_authorization_sound_direct (σ : Mapper) (req : Request) (es : Entities) (preq : PRequest) (pes : PEntities)
+    (ps : List Policy) (hctx : (Value.record req.context).Canon)
+    (hS : PS.StoreCompletes σ pes es) (hD : PS.DirectUnk pes) (hC : PS.Concretizes2 σ es preq req)
+    (hfrag : ∀ p, p ∈ ps → PS.Frag2 σ p.condition ∧ p.condition.unknowns = [])
+    (hreq : (isAuthorizedCore [] preq pes ps).concretizeRequest σ = .ok (.ofConcrete req))
+    (hslot : (isAuthorizedCore [] preq pes ps).residualPoliciesPanic = false)
+    (hfuel1 : ∀ p, p ∈ ps → partialEvaluate [] preq pes p ≠ .stuck)
+    (hfuel2 : ∀ p, p ∈ ps → ∀ q, residualPolicy (partialEvaluate [] preq pes p) p = some q →
+      partialEvaluate σ (.ofConcrete req) pes q ≠ .stuck) :
+    let pr := isAuthorizedCore [] preq pes ps
+    (∃ pr2, pr.reauthorize σ pes = .ok pr2 ∧
+      pr2.decision = some (isAuthorized req es ps).decision ∧
+      pr2.concretize.decision = (isAuthorized req es ps).decision ∧
+      (∀ id, id ∈ pr2.concretize.reasons ↔ id ∈ (isAuthorized req es ps).reasons)) ∧
+    (∀ d, pr.decision = some d → (isAuthorized req es ps).decision = d) ∧
+    (∀ id, id ∈ pr.mustBeDetermining → id ∈ (isAuthorized req es ps).reasons) ∧
+    (∀ id, id ∈ (isAuthorized req es ps).reasons → id ∈ pr.mayBeDetermining) := by
+  intro pr
+  obtain ⟨h1, h2, h3, _⟩ := partial_definite_sound σ req es preq pes ps hctx hS hC hfrag hfuel1
+  refine ⟨?_, h1, h2, h3⟩
+  exact reauthorize_core_on pes σ preq pes ps req es hreq hslot
+    (fun p hp => PS.policyAgreesOn_of_frag3_direct σ req es hctx preq pes hS hD hC p (hfrag p hp).1
+      (PS.substUnk_of_noUnk σ _ (hfrag p hp).2)
+      (fun r hr => PS.noSlot_of_panicFree preq pes ps hslot hp hr) (hfuel2 p hp) (hfuel1 p hp))
+
+/-- non-vacuity of `partial_authorization_sound_direct`: `User::"a"` with the direct unknown attribute `level = unknown("u")`,
+    unknown principal; a permit `principal.level == 1`, a forbid `principal.level < 0` and a template-linked forbid
+    `principal == ?principal` (linked to `User::"z"`).  All hypotheses hold; the partial decision is undetermined (three
+    residuals); ONE `reauthorize` round on the *unsubstituted* store `pes` gives the concrete `Allow`. -/
+example :
+    let σ : Mapper := [("principal", .prim (.entityUID ⟨"User", "a"⟩)), ("u", .prim (.int 1))]
+    let req : Request := ⟨⟨"User", "a"⟩, ⟨"A", "x"⟩, ⟨"R", "r"⟩, []⟩
+    let preq : PRequest := ⟨.unknown (some "User"), .known ⟨"A", "x"⟩, .known ⟨"R", "r"⟩, some (.value [])⟩
+    let pes : PEntities := ⟨[(⟨"User", "a"⟩, ⟨[("level", .residual (.unknown "u" none))], [], []⟩)], false⟩
+    let es : Entities := [(⟨"User", "a"⟩, ⟨[("level", .prim (.int 1))], [], []⟩)]
+    let p1 : Policy := ⟨"p1", .permit, .binaryApp .eq (.getAttr (.var .principal) "level") (.lit (.int 1)), []⟩
+    let p2 : Policy := ⟨"p2", .forbid, .binaryApp .less (.getAttr (.var .principal) "level") (.lit (.int 0)), []⟩
+    let p3 : Policy := ⟨"p3", .forbid, .binaryApp .eq (.var .principal) (.slot .principal), [(.principal, ⟨"User", "z"⟩)]⟩
+    let ps := [p1, p2, p3]
+    PS.DirectUnk pes ∧ (isAuthorizedCore [] preq pes ps).decision = none ∧
+    (isAuthorizedCore [] preq pes ps).residualForbids.length = 2 ∧ (isAuthorized req es ps).decision = .allow ∧
+    ∃ pr2, (isAuthorizedCore [] preq pes ps).reauthorize σ pes = .ok pr2 ∧
+      pr2.decision = some (isAuthorized req es ps).decision ∧
+      (∀ id, id ∈ pr2.concretize.reasons ↔ id ∈ (isAuthorized req es ps).reasons) := by
+  intro σ req preq pes es p1 p2 p3 ps
+  have hu : PS.UnkOK σ "u" none := ⟨_, rfl, trivial, by intro t ht; cases ht⟩
+  have hS : PS.StoreCompletes σ pes es :=
+    PS.storeCompletes_single _ _ _ rfl
+      (PS.attrsComplete_cons "level" (show PS.AttrCompletes _ _ (.residual _) (.prim (.int 1)) from ⟨.unknown _ _ hu, trivial, fun _ _ => rfl⟩)
+        PS.attrsComplete_nil)
+      PS.attrsComplete_nil
+  have hD : PS.DirectUnk pes := by
+    refine ⟨rfl, ?_⟩
+    intro u d hfd
+    simp only [pes, PEntities.find?] at hfd
+    split at hfd
+    · cases hfd
+      constructor
+      · intro a r hl
+        simp only [lookupKV] at hl
+        split at hl
+        · cases hl; exact ⟨_, _, rfl⟩
+        · cases hl
+      · intro a r hl; simp [lookupKV] at hl
+    · cases hfd
+  have hfrag : ∀ p, p ∈ ps → PS.Frag2 σ p.condition ∧ p.condition.unknowns = [] := by
+    intro p hp
+    simp only [ps, List.mem_cons, List.not_mem_nil, or_false] at hp
+    rcases hp with rfl | rfl | rfl
+    · exact ⟨.binaryApp .eq (.getAttr "level" (.var _)) (.lit _), rfl⟩
+    · exact ⟨.binaryApp .less (.getAttr "level" (.var _)) (.lit _), rfl⟩
+    · exact ⟨.binaryApp .eq (.var _) (.slot _), rfl⟩
+  obtain ⟨hf1, hf2⟩ := PS.fuelOKOn_spec (pes2 := pes) (σ := σ) (req := req) (preq := preq) (pes := pes) (ps := ps) (by decide +kernel)
+  obtain ⟨⟨pr2, h1, h2, _, h4⟩, _⟩ := partial_authorization_sound_direct σ req es preq pes ps ⟨trivial, trivial⟩
+    hS hD ⟨⟨rfl, rfl⟩, rfl, rfl, rfl⟩ hfrag rfl (by decide +kernel) hf1 hf2
+  exact ⟨hD, by decide +kernel, by decide +kernel, by decide +kernel, pr2, h1, h2, h4⟩
+
+/-- **concretize_request_sound** — what `PartialResponse::concretize_request` computes is the relation the soundness
+theorems assume.  If the model's `concretizeRequest σ` (the do-block mirroring the Rust function: principal / action /
+resource through `EntityUIDEntry::concretize` — σ's value must be an entity, a known entry must not be re-bound, a typed
+unknown must receive an entity of that type —; a missing context replaced by σ's `context` record, a present one conflicting
+with it; then `Context::substitute` = substitution + restricted evaluation) returns the **concrete** request `req`, then
+`PS.Concretizes2 σ es preq req` for every store `es`.  Side condition on the input: a residual context lies in the fragment
+(`PS.CtxFrag`: σ defines its unknowns with canonical values of the annotated types; distinct keys).  Built from
+`concretize_entry_gives_conc`, `context_substitute_gives_completes`, `restricted_eval_sound`. -/
+theorem concretize_request_sound (σ : Mapper) (preq : PRequest) (pes : PEntities) (ps : List Policy) (es : Entities)
+    (req : Request) (hcf : PS.CtxFrag σ preq.context)
+    (hreq : (isAuthorizedCore [] preq pes ps).concretizeRequest σ = .ok (.ofConcrete req)) :
+    PS.Concretizes2 σ es preq req := by
+  have h := PS.concretizes2_of_concretizeRequest (isAuthorizedCore [] preq pes ps) σ es req
+    (by rw [PS.isAuthorizedCore_request]; exact hcf) hreq
+  rw [PS.isAuthorizedCore_request] at h
+  exact h
+
+/-- **partial_authorization_sound_req** — `partial_authorization_sound` with the request hypotheses reduced to ONE:
+`concretize_request σ` succeeds with the concrete request `req` (`PS.Concretizes2` is derived by `concretize_request_sound`).
+Remaining hypotheses: the store (`StoreCompletes`, canonical values), the policies and a residual context lie in the
+fragment, no residual keeps a slot, fuel. -/
+theorem partial_authorization_sound_req (σ : Mapper) (req : Request) (es : Entities) (preq : PRequest) (pes : PEntities)
+    (ps : List Policy) (hctx : (Value.record req.context).Canon) (hstore : PS.StoreCanon es)
+    (hS : PS.StoreCompletes σ pes es)
+    (hfrag : ∀ p, p ∈ ps → PS.Frag2 σ p.condition ∧ p.condition.unknowns = [])
+    (hcf : PS.CtxFrag σ preq.context)
+    (hreq : (isAuthorizedCore [] preq pes ps).concretizeRequest σ = .ok (.ofConcrete req))
+    (hslot : (isAuthorizedCore [] preq pes ps).residualPoliciesPanic = false)
+    (hfuel1 : ∀ p, p ∈ ps → partialEvaluate [] preq pes p ≠ .stuck)
+    (hfuel2 : ∀ p, p ∈ ps → ∀ q, residualPolicy (partialEvaluate [] preq pes p) p = some q →
+      partialEvaluate σ (.ofConcrete req) (.ofConcrete es) q ≠ .stuck) :
+    let pr := isAuthorizedCore [] preq pes ps
+    (∃ pr2, pr.reauthorize σ (.ofConcrete es) = .ok pr2 ∧
+      pr2.decision = some (isAuthorized req es ps).decision ∧
+      pr2.concretize.decision = (isAuthorized req es ps).decision ∧
+      (∀ id, id ∈ pr2.concretize.reasons ↔ id ∈ (isAuthorized req es ps).reasons)) ∧
+    (∀ d, pr.decision = some d → (isAuthorized req es ps).decision = d) ∧
+    (∀ id, id ∈ pr.mustBeDetermining → id ∈ (isAuthorized req es ps).reasons) ∧
+    (∀ id, id ∈ (isAuthorized req es ps).reasons → id ∈ pr.mayBeDetermining) :=
+  partial_authorization_sound σ req es preq pes ps hctx hstore hS
+    (concretize_request_sound σ preq pes ps es req hcf hreq) hfrag hreq hslot hfuel1 hfuel2
+
+/-- … and the one-round statement on the unsubstituted store, likewise. -/
+theorem partial_authorization_sound_direct_req (σ : Mapper) (req : Request) (es : Entities) (preq : PRequest) (pes : PEntities)
+    (ps : List Policy) (hctx : (Value.record req.context).Canon)
+    (hS : PS.StoreCompletes σ pes es) (hD : PS.DirectUnk pes)
+    (hfrag : ∀ p, p ∈ ps → PS.Frag2 σ p.condition ∧ p.condition.unknowns = [])
+    (hcf : PS.CtxFrag σ preq.context)
+    (hreq : (isAuthorizedCore [] preq pes ps).concretizeRequest σ = .ok (.ofConcrete req))
+    (hslot : (isAuthorizedCore [] preq pes ps).residualPoliciesPanic = false)
+    (hfuel1 : ∀ p, p ∈ ps → partialEvaluate [] preq pes p ≠ .stuck)
+    (hfuel2 : ∀ p, p ∈ ps → ∀ q, residualPolicy (partialEvaluate [] preq pes p) p = some q →
+      partialEvaluate σ (.ofConcrete req) pes q ≠ .stuck) :
+    let pr := isAuthorizedCore [] preq pes ps
+    (∃ pr2, pr.reauthorize σ pes = .ok pr2 ∧
+      pr2.decision = some (isAuthorized req es ps).decision ∧
+      pr2.concretize.decision = (isAuthorized req es ps).decision ∧
+      (∀ id, id ∈ pr2.concretize.reasons ↔ id ∈ (isAuthorized req es ps).reasons)) ∧
+    (∀ d, pr.decision = some d → (isAuthorized req es ps).decision = d) ∧
+    (∀ id, id ∈ pr.mustBeDetermining → id ∈ (isAuthorized req es ps).reasons) ∧
+    (∀ id, id ∈ (isAuthorized req es ps).reasons → id ∈ pr.mayBeDetermining) :=
+  partial_authorization_sound_direct σ req es preq pes ps hctx hS hD
+    (concretize_request_sound σ preq pes ps es req hcf hreq) hfrag hreq hslot hfuel1 hfuel2
+
+/-- non-vacuity of `concretize_request_sound` / `partial_authorization_sound_req`: typed unknown principal, **residual
+    context** `{lim: unknown("l": long)}`, the store of `second_round_needed` (nested and direct unknown attributes);
+    `principal.level < context.lim`.  `concretize_request` computes the concrete request (kernel-checked `rfl`), from which
+    `Concretizes2` follows; one round on the substituted store gives the concrete `Allow`.  Rejections of
+    `concretize_request`: a non-entity value for `principal`, an entity of the wrong type, re-binding the known action. -/
+example :
+    let σ : Mapper := [("principal", .prim (.entityUID ⟨"User", "a"⟩)), ("u", .prim (.int 1)), ("l", .prim (.int 7))]
+    let req : Request := ⟨⟨"User", "a"⟩, ⟨"A", "x"⟩, ⟨"R", "r"⟩, [("lim", .prim (.int 7))]⟩
+    let preq : PRequest := ⟨.unknown (some "User"), .known ⟨"A", "x"⟩, .known ⟨"R", "r"⟩,
+      some (.residual [("lim", .unknown "l" (some .long))])⟩
+    let p : Policy := ⟨"lt", .permit, .binaryApp .less (.getAttr (.var .principal) "level") (.getAttr (.var .context) "lim"), []⟩
+    (isAuthorizedCore [] preq PS.srPes [p]).concretizeRequest σ = .ok (.ofConcrete req) ∧
+    PS.Concretizes2 σ PS.srEs preq req ∧
+    (isAuthorizedCore [] preq PS.srPes [p]).decision = none ∧
+    (∃ pr2, (isAuthorizedCore [] preq PS.srPes [p]).reauthorize σ (.ofConcrete PS.srEs) = .ok pr2 ∧
+      pr2.decision = some (isAuthorized req PS.srEs [p]).decision ∧ (isAuthorized req PS.srEs [p]).decision = .allow) ∧
+    (isAuthorizedCore [] preq PS.srPes [p]).concretizeRequest [("principal", .prim (.int 3))] = .error .concretization ∧
+    (isAuthorizedCore [] preq PS.srPes [p]).concretizeRequest [("principal", .prim (.entityUID ⟨"Group", "g"⟩))] = .error .concretization ∧
+    (isAuthorizedCore [] preq PS.srPes [p]).concretizeRequest [("action", .prim (.entityUID ⟨"A", "x"⟩))] = .error .concretization := by
+  intro σ req preq p
+  have hl : PS.UnkOK σ "l" (some .long) := ⟨_, rfl, trivial, by intro t ht; cases ht; rfl⟩
+  have hu : PS.UnkOK σ "u" none := ⟨_, rfl, trivial, by intro t ht; cases ht⟩
+  have hcf : PS.CtxFrag σ preq.context := by
+    intro kvs hk
+    cases hk
+    refine .record (by decide) ?_
+    intro kv hkv; simp only [List.mem_cons, List.not_mem_nil, or_false] at hkv; subst hkv; exact .unknown _ _ hl
+  have hreq : (isAuthorizedCore [] preq PS.srPes [p]).concretizeRequest σ = .ok (.ofConcrete req) := rfl
+  have hcan : (Value.record [("x", .prim (.int 1))]).Canon := ⟨⟨(by intro k' h; cases h), trivial⟩, trivial, trivial⟩
+  have hstore : PS.StoreCanon PS.srEs := by
+    intro u d h
+    simp only [PS.srEs, Entities.find?] at h
+    split at h
+    · cases h; exact ⟨⟨hcan, trivial, trivial⟩, trivial, trivial⟩
+    · cases h
+  have hS : PS.StoreCompletes σ PS.srPes PS.srEs := by
+    refine PS.storeCompletes_single _ _ _ rfl
+      (PS.attrsComplete_cons "info" (show PS.AttrCompletes _ _ (.residual _) _ from ⟨.record (by decide) ?_, hcan, fun _ _ => rfl⟩)
+        (PS.attrsComplete_cons "level" (show PS.AttrCompletes _ _ (.residual _) (.prim (.int 1)) from ⟨.unknown _ _ hu, trivial, fun _ _ => rfl⟩)
+          PS.attrsComplete_nil))
+      (PS.attrsComplete_cons "t" (show PS.AttrCompletes _ _ (.residual _) (.prim (.int 1)) from ⟨.unknown _ _ hu, trivial, fun _ _ => rfl⟩)
+        PS.attrsComplete_nil)
+    intro kv hkv; simp only [List.mem_cons, List.not_mem_nil, or_false] at hkv; subst hkv; exact .unknown _ _ hu
+  have hfrag : ∀ q, q ∈ [p] → PS.Frag2 σ q.condition ∧ q.condition.unknowns = [] := by
+    intro q hq; simp only [List.mem_cons, List.not_mem_nil, or_false] at hq; subst hq
+    exact ⟨.binaryApp .less (.getAttr "level" (.var _)) (.getAttr "lim" (.var _)), rfl⟩
+  obtain ⟨hf1, hf2⟩ := PS.fuelOK_spec (σ := σ) (req := req) (es := PS.srEs) (preq := preq) (pes := PS.srPes) (ps := [p])
+    (by decide +kernel)
+  have hctx : (Value.record req.context).Canon := ⟨⟨(by intro k' h; cases h), trivial⟩, trivial, trivial⟩
+  obtain ⟨⟨pr2, h1, h2, _, _⟩, _⟩ := partial_authorization_sound_req σ req PS.srEs preq PS.srPes [p] hctx hstore hS hfrag hcf hreq
+    (by decide +kernel) hf1 hf2
+  exact ⟨hreq, concretize_request_sound σ preq PS.srPes [p] PS.srEs req hcf hreq, by decide +kernel, ⟨pr2, h1, h2, by decide +kernel⟩,
+    rfl, rfl, rfl⟩
 
 end Cedar.C13
